@@ -86,3 +86,7 @@ func badAliasInLoop(n int) [][]byte {
 type holder struct{ f func() int }
 
 func badFuncField(h holder) int { return h.f() }
+
+type other interface{ Do() }
+
+func badIface(o other) { o.Do() }
